@@ -20,7 +20,10 @@ namespace Spine.Props.C15Gen
 open Spine
 
 /-- A publisher that waits for `muHandle` does not hold `mu`: in `Publish`, `r.mu.Unlock()` precedes
-    `r.muHandle.Lock()`, and there is no other lock operation. This is why `LEv.snapshot` is an event after which
+    `r.muHandle.Lock()`, and there is no other lock operation on these two mutexes (a further mutex of the bus is tolerated
+    only as a LEAF lock: every critical section of it, in every method of the type, is closed by the method that opened
+    it and contains no handler invocation, no list access, no other lock operation, nothing that blocks — such a lock is
+    never held for ever by anybody and is not held when `muHandle` is acquired). This is why `LEv.snapshot` is an event after which
     `mu` is free, why `Enabled s (.subscribe h)` / `(.unsubscribe h)` / `(.snapshot p)` hold in EVERY state of
     `Spine.Bus.LSt`, and so what `c15_reentrant_ok` (1) rests on. The member without this fact deadlocks when a core
     handler (un)subscribes while a second publisher is queued (`Spine.Props.C15.handover_deadlock_witness`). -/
@@ -51,7 +54,7 @@ theorem c15gen_core_sync_application_async_core_first :
 
 /-- `Publish` blocks on nothing but `mu` and `muHandle`: every operation in it is on a white list (no WaitGroup or
     Cond wait, no channel operation, no select, no function literal, no defer), and the bus has no state besides the
-    two mutexes and the handler list. This is why `Enabled` depends on `holder` only, and what
+    two mutexes and the handler list — apart from leaf locks (see above) and fields touched only inside their sections. This is why `Enabled` depends on `holder` only, and what
     `c15_publish_never_waits_for_application_handlers` rests on. The member in which the dispatch waits for earlier
     application handlers deadlocks (`Spine.Props.C15.wait_member_deadlock_witness`). -/
 theorem c15gen_publish_blocks_only_on_the_two_mutexes :
